@@ -7,7 +7,7 @@ RULE = ("controlled schedules (real threads, one runnable at a time, yield at ev
         "default + init_if_needed + copy + get_promise() on the copy, set_value), a resolver (value / exception / drop) and 0-5 user threads "
         "that optionally copy their handle and then drop / poll / co_await / sync() / subscribe a callback awaiter; payload and exception are "
         "instance counted, ASan + LSan (leak check after every case) are observations; random, bursty, resolver-starving and resolver-first "
-        "schedules; thorough adds every schedule prefix of length 7 over 3 choices for 14 small configurations; "
+        "schedules; thorough adds every schedule prefix of length 6 over 3 choices for 14 small configurations; "
         "non-trivial = at least 3 thread switches in the executed trace; distinct = distinct (threads, schedule)")
 SCOPE = ("shared_future ctor(fn(promise)) / ctor(fn->future) / default ctor / init_if_needed / get_promise / set_value / copy / destructor / "
          "ready / value / sync / operator co_await, resolve_cb::charge and the tracer callback, future::get_promise/result_of/set/resolve/value, "
@@ -41,7 +41,7 @@ def rand_sched(rng, L):
 
 def gen(seed, tier):
     rng = random.Random(seed * 1000003 + 1717)
-    n = 700 if tier == "quick" else 6000
+    n = 700 if tier == "quick" else 4000
     cases = []
     for i in range(n):
         mode = rng.choice([0, 0, 1, 1, 2, 3, 3, 4]) if i % 7 else rng.choice([0, 1, 2, 3])
@@ -69,7 +69,7 @@ def gen(seed, tier):
                 (0, (0, 5), [(1, 1)]), (4, (0, 5), [(0, 2), (1, 0)])]
         j = 0
         for (mode, res, users) in cfgs:
-            for pre in itertools.product(range(3), repeat=7):
+            for pre in itertools.product(range(3), repeat=6):
                 cases.append(mk("x%d" % j, mode, 9, res, users, pre)); j += 1
     return cases
 
